@@ -65,6 +65,7 @@ def units(tier):
             us.append(("boundary-day", which, part))
     us.append(("offsets",))
     us.append(("dst-fold",))
+    us.append(("logical-unions",))
     us.append(("uuid",))
     for p in range(1, (3 if tier == "quick" else 4) + 1):
         for sc in range(0, p + 1):
@@ -321,6 +322,48 @@ def run_unit(unit, tier):
                         for raw in TS_TYPES[:2]:
                             ctx.check(raw, v)
         res.sample({"type": "timestamps", "dst_zones": len(zones), "wall_clock_times": len(walls), "each_with": "fold 0 then 1, and 1 then 0, same tzinfo object"})
+    elif kind == "logical-unions":
+        # several logical types over one base type in a union: the converter must follow the WRITER's branch,
+        # with and without a reader schema (an identical copy, or one with the branches reordered)
+        import copy as _copy
+
+        D, TM = S("int", "date"), S("int", "time-millis")
+        TU, TSU, TSM, LTU = S("long", "time-micros"), S("long", "timestamp-micros"), S("long", "timestamp-millis"), S("long", "local-timestamp-micros")
+        cases = [
+            (["null", D, TM], [datetime.date(2020, 2, 29), datetime.time(12, 30, 15, 500000), None]),
+            (["null", TM, D], [datetime.date(1970, 1, 2), datetime.time(0, 0, 1), None]),
+            (["null", TSU, TU, "string"], [datetime.datetime(2021, 3, 4, 5, 6, 7, 8, tzinfo=UTC), datetime.time(1, 2, 3, 4), "s"]),
+            (["null", TU, TSM], [datetime.time(23, 59, 59, 999999), datetime.datetime(1969, 12, 31, 23, 59, 59, 999000, tzinfo=UTC)]),
+            (["null", TU, LTU], [datetime.time(0, 0, 0, 1), datetime.datetime(2000, 1, 1, 0, 0, 0, 1)]),
+            ({"type": "record", "name": "LU", "fields": [{"name": "a", "type": ["null", D, TM]}, {"name": "b", "type": {"type": "array", "items": [TSU, TU]}},
+                                                        {"name": "c", "type": {"type": "map", "values": ["null", TM, D]}}]},
+             [{"a": datetime.time(1, 1, 1), "b": [datetime.time(2, 2, 2, 2), datetime.datetime(2020, 1, 1, tzinfo=UTC)], "c": {"k": datetime.date(2000, 1, 1), "l": datetime.time(3, 3, 3)}}]),
+        ]
+        for sch, vals in cases:
+            readers = [None, _copy.deepcopy(sch)]
+            if isinstance(sch, list):
+                readers.append([sch[0]] + list(reversed(_copy.deepcopy(sch[1:]))))
+            for v in vals:
+                for rs in readers:
+                    res.evals += 1
+                    ctx.n += 1
+                    info = {"schema": sch, "value": v, "reader_schema": rs}
+                    try:
+                        fo = io.BytesIO()
+                        fa.schemaless_writer(fo, _copy.deepcopy(sch), v)
+                        payload = fo.getvalue()
+                        a = fa.schemaless_reader(io.BytesIO(payload), _copy.deepcopy(sch), _copy.deepcopy(rs)) if rs is not None else fa.schemaless_reader(io.BytesIO(payload), _copy.deepcopy(sch))
+                        fo = io.BytesIO()
+                        fa.writer(fo, _copy.deepcopy(sch), [v], sync_marker=b"L" * 16)
+                        fo.seek(0)
+                        b = list(fa.reader(fo, reader_schema=_copy.deepcopy(rs)))[0]
+                    except Exception as e:
+                        res.add(Violation("c16.union", f"logical-union-raised:{type(e).__name__}", f"{type(e).__name__}: {e} | {short(info, 400)}", info))
+                        continue
+                    for got, how in ((a, "schemaless"), (b, "container")):
+                        if type(got) is not type(v) or got != v:
+                            res.add(Violation("c16.union", f"logical-union-wrong-converter:{how}", f"{v!r} written under {sch} read back ({how}, reader_schema={'given' if rs is not None else 'none'}) as {got!r}", info))
+        res.sample({"type": "unions of logical types over one base type", "cases": len(cases)})
     elif kind == "uuid":
         raw = S("string", "uuid")
         vals = [uuid.UUID(int=0), uuid.UUID(int=(1 << 128) - 1)] + [uuid.UUID(int=1 << b) for b in range(128)]
@@ -375,6 +418,8 @@ def replay(case):
     import fastavro as fa
 
     res = UnitResult()
+    if "reader_schema" in case:
+        return run_unit(("logical-unions",), "quick").violations
     Ctx(fa, res).check(case["schema"], case["value"])
     return res.violations
 
